@@ -185,7 +185,11 @@ func (m *runMonitor) end() {
 }
 
 func (m *runMonitor) watch(a *workerArgs, out *workerOut, finish func()) {
-	limit := time.Duration(envInt("VERIF_RUN_TIMEOUT", 300)) * time.Second
+	def := 300
+	if a.Tier == "quick" {
+		def = 150 // quick runs last seconds; the longest (enumerations) end with the batch budget
+	}
+	limit := time.Duration(envInt("VERIF_RUN_TIMEOUT", def)) * time.Second
 	go func() {
 		for {
 			time.Sleep(time.Second)
